@@ -42,8 +42,12 @@ static inline ptrdiff_t cxc_idx_stop(ptrdiff_t e, size_t len)
 #endif
   return e;
 }
+/* opt-in per unit (-DCXC_IDX_STOP / #define before this prelude): measured on cuthill_mckee the extra
+ * assumptions make the SAT instance 6x slower (322 s vs 50 s), so those units keep the plain IDX     */
+#ifdef CXC_IDX_STOP
 #undef IDX
 #define IDX(e, len, what) cxc_idx_stop((ptrdiff_t)(e), (size_t)(len))
+#endif
 /* std::vector<T> name(n, init): constant-capacity storage (a local array: content beyond the
  * logical length name_n is nondeterministic), the first name_n elements initialised as
  * std::vector does (value-initialisation = 0)                                           */
